@@ -198,6 +198,14 @@ func genShutdownCase(rng *rand.Rand, i int) (LifeSpec, string) {
 			spec.Ops = nil
 		}
 		when = "launch:a"
+	case "run.afterTermCheck":
+		if rng.Intn(2) == 0 {
+			t.BadDir = true // its validation will fail after the stop has ended it
+		}
+	case "run.beforeLaunch":
+		if rng.Intn(3) == 0 {
+			t.StartErr = []int{0} // its start will fail after the stop has ended it
+		}
 	case "run.afterWait", "run.end", "runner.afterRun":
 		t.RunMs = []int{3}
 	case "run.afterBackoff":
@@ -289,6 +297,10 @@ func genShutdownRandom(rng *rand.Rand) LifeSpec {
 			spec.Procs[i].RunMs = []int{rng.Intn(6)}
 		}
 	}
+	if rng.Intn(4) == 0 {
+		// a daemon whose shutdown command succeeds, fails or is slow
+		spec.Procs = append(spec.Procs, PSpec{Name: "dm", Daemon: true, RunMs: []int{0}, StopCmd: []string{"true", "exit 1", "sleep 0.05", "sleep 0.05; exit 3"}[rng.Intn(4)]})
+	}
 	spec.AutoSched = rng.Intn(2) == 0
 	spec.PerturbUs = rng.Intn(1500)
 	trig := []string{"shutdown", "shutdown", "shutdown"}[rng.Intn(3)]
@@ -301,6 +313,20 @@ func genShutdownRandom(rng *rand.Rand) LifeSpec {
 
 func genManualCase(rng *rand.Rand, i int) LifeSpec {
 	spec := LifeSpec{BackoffUnitMs: 20, Ordered: i%5 == 3}
+	if i%20 == 7 {
+		// a real command that cannot be started (no such executable): requests
+		// arrive between the failed start and the Error report
+		spec.Procs = []PSpec{{Name: "mx", RealExe: "/nonexistent/pcverif-no-such-exe"}, {Name: "mz", RunMs: []int{-1}}}
+		spec.Holds = []sim.Hold{{Point: "run.startFailed", Name: "mx", Nth: 1, MaxMs: 150, Tag: "h"}}
+		op := []string{"stop", "restart", "stop"}[rng.Intn(3)]
+		spec.Ops = []Op{{When: "hold:h", Op: op, Proc: "mx", Release: []string{"h"}}}
+		for s := 0; s < rng.Intn(5); s++ {
+			spec.Ops = append(spec.Ops, Op{When: fmt.Sprintf("pause:%d", rng.Intn(20)), Op: []string{"start", "stop", "restart"}[rng.Intn(3)], Proc: "mx"})
+		}
+		spec.EndWithShutdown = true
+		spec.SilenceMs = 4000
+		return spec
+	}
 	if i%10 == 9 {
 		// a replicated process: requests address single replicas, the first ones
 		// arrive while Run() has not reached that replica yet
@@ -325,6 +351,9 @@ func genManualCase(rng *rand.Rand, i int) LifeSpec {
 			p.Exits = []int{rng.Intn(2)}
 		case 1: // slow reaction to the stop signal (longer than the back-off)
 			p.Sig = &sim.SigSpec{Ms: 25 + rng.Intn(40)}
+			if rng.Intn(2) == 0 {
+				p.StopTimeout = 1 + rng.Intn(3) // a SIGKILL escalation is configured (never needed)
+			}
 		case 2: // restarting
 			p.RunMs = []int{rng.Intn(5)}
 			p.Exits = []int{1}
@@ -373,6 +402,14 @@ func genManualCase(rng *rand.Rand, i int) LifeSpec {
 		pts := []string{"start.afterCheck", "restart.afterStop", "runner.afterRun", "run.beforeLaunch", "stop.afterCancel"}
 		spec.Holds = []sim.Hold{{Point: pts[rng.Intn(len(pts))], Name: "", Nth: 1 + rng.Intn(3), MaxMs: 60, Tag: "h"}}
 	}
+	if i%20 == 13 {
+		// requests served before Run() is called (the API is up first)
+		for _, p := range spec.Procs {
+			if rng.Intn(2) == 0 {
+				spec.PreRunStart = append(spec.PreRunStart, p.Name)
+			}
+		}
+	}
 	spec.PerturbUs = rng.Intn(800)
 	spec.EndWithShutdown = true
 	spec.SilenceMs = 4000
@@ -396,6 +433,31 @@ func genOrderedCase(rng *rand.Rand, i int) LifeSpec {
 			spec.Procs = append(spec.Procs, PSpec{Name: fmt.Sprintf("o%d", k), RunMs: []int{-1}, Sig: &sim.SigSpec{Ms: 30 + rng.Intn(70)}, Deps: []Dep{{On: "o0", Cond: c}}})
 		}
 		spec.Ops = []Op{{When: fmt.Sprintf("launch:o%d", n-1), Op: "start", Proc: "o0"}, {When: "launch:o0:2", Op: "sleep", N: 1 + rng.Intn(8)}, {When: "now", Op: "shutdown"}}
+		spec.SilenceMs = 4000
+		return spec
+	}
+	if i%9 == 4 {
+		// a daemon dependent whose shutdown command takes a while
+		mark := fmt.Sprintf("/dev/shm/pcverif-c12-%d.mark", rng.Int63())
+		spec.Procs = []PSpec{
+			{Name: "o0", RunMs: []int{-1}, Sig: &sim.SigSpec{Ms: rng.Intn(10)}},
+			{Name: "d1", Daemon: true, RunMs: []int{0}, Deps: []Dep{{On: "o0", Cond: types.ProcessConditionStarted}}, StopMark: mark,
+				StopCmd: fmt.Sprintf("sleep 0.%02d; date +%%s%%N > %s", 8+rng.Intn(20), mark)},
+		}
+		spec.Ops = []Op{{When: "launch:d1", Op: "sleep", N: 10 + rng.Intn(20)}, {When: "now", Op: "shutdown"}}
+		spec.SilenceMs = 4000
+		return spec
+	}
+	if i%9 == 8 {
+		// a replicated dependent whose replicas take different times to die
+		spec.Procs = []PSpec{
+			{Name: "o0", RunMs: []int{-1}, Sig: &sim.SigSpec{Ms: rng.Intn(10)}},
+			{Name: "o1", RunMs: []int{-1}, Replicas: 2 + rng.Intn(3), Sig: &sim.SigSpec{Ms: 5 + rng.Intn(20), Step: 25 + rng.Intn(30)}, Deps: []Dep{{On: "o0", Cond: types.ProcessConditionStarted}}},
+		}
+		if rng.Intn(2) == 0 {
+			spec.Procs = append(spec.Procs, PSpec{Name: "o2", RunMs: []int{-1}, Sig: &sim.SigSpec{Ms: rng.Intn(30)}, Deps: []Dep{{On: "o0", Cond: types.ProcessConditionStarted}}})
+		}
+		spec.Ops = []Op{{When: fmt.Sprintf("t:%d", 10+rng.Intn(20)), Op: "shutdown"}}
 		spec.SilenceMs = 4000
 		return spec
 	}
